@@ -4,6 +4,11 @@
 
 mod c33;
 mod c34;
+mod common;
+
+// Every SelectExecutor allocates a zeroed 10 MiB arena per query; pool those blocks (see vcore::bigalloc)
+#[global_allocator]
+static GLOBAL: vcore::bigalloc::ArenaCache = vcore::bigalloc::ArenaCache;
 
 fn usage() -> ! {
     eprintln!("usage: schematrigcheck check <C33|C34> <quick|thorough> | schematrigcheck replay <path>");
@@ -58,6 +63,8 @@ fn main() {
             }
         },
         "replay" if args.len() >= 3 => replay(&args[2]),
+        "sql" if args.len() >= 3 => common::probe(&args[2]),
+        "bench" => common::bench(),
         _ => usage(),
     };
     std::process::exit(code);
